@@ -654,6 +654,8 @@ impl<S: Spec, C: flatcontainer::impls::index::IndexContainer<Idx<S>> + 'static> 
 
 pub struct HugeClearMachine<S: Spec> {
     make: fn(usize) -> S::V,
+    size: usize,
+    label: &'static str,
     r: S::R,
     stage: u8,
     tags: Vec<String>,
@@ -661,13 +663,16 @@ pub struct HugeClearMachine<S: Spec> {
 
 impl<S: Spec> HugeClearMachine<S> {
     pub fn new(make: fn(usize) -> S::V) -> Self {
-        HugeClearMachine { make, r: Default::default(), stage: 0, tags: vec![] }
+        HugeClearMachine { make, size: 72 << 20, label: "one item of 72 MiB", r: Default::default(), stage: 0, tags: vec![] }
+    }
+    pub fn sized(make: fn(usize) -> S::V, size: usize, label: &'static str) -> Self {
+        HugeClearMachine { make, size, label, r: Default::default(), stage: 0, tags: vec![] }
     }
 }
 
 impl<S: Spec> Machine for HugeClearMachine<S> {
     fn name(&self) -> String {
-        format!("alloc/huge-clear/{}", S::name())
+        format!("alloc/huge-clear/{}/{}", S::name(), self.size)
     }
     fn reset(&mut self) {
         self.r = Default::default();
@@ -681,18 +686,22 @@ impl<S: Spec> Machine for HugeClearMachine<S> {
         }
     }
     fn describe(&self, op: OpId) -> String {
-        ["push one item of 72 MiB", "clear()"][op as usize].into()
+        if op == 0 {
+            format!("push {}", self.label)
+        } else {
+            "clear()".into()
+        }
     }
     fn step(&mut self, op: OpId) -> Step {
         if op == 0 {
-            let v = (self.make)(72 << 20);
+            let v = (self.make)(self.size);
             let r = &mut self.r;
             let idx = match guard(|| S::canon_push(r, &v)) {
                 Ok(i) => i,
                 Err(p) => return Step::Violation(format!("push panicked: {p}")),
             };
             if let Err(e) = S::check(self.r.index(idx), &v) {
-                return Step::Violation(format!("the 72 MiB item does not read back: {e}"));
+                return Step::Violation(format!("{} does not read back: {e}", self.label));
             }
             self.stage = 1;
             return Step::Ok;
@@ -701,8 +710,15 @@ impl<S: Spec> Machine for HugeClearMachine<S> {
         self.r.clear();
         let after = caps(&self.r);
         self.stage = 2;
-        if after.len() < before.len() || before.iter().zip(&after).any(|(b, a)| a < b) {
-            return Step::Violation(format!("after clear() a reported capacity shrank: {before:?} -> {after:?}"));
+        if after.len() < before.len() {
+            return Step::Violation(format!(
+                "after clear() heap_size reports {} storages, before it {}: allocations that are still held went missing",
+                after.len(),
+                before.len()
+            ));
+        }
+        if let Some(k) = before.iter().zip(&after).position(|(b, a)| a < b) {
+            return Step::Violation(format!("after clear() the reported capacity of storage #{k} shrank: {} -> {}", before[k], after[k]));
         }
         self.tags.push("huge-clear".into());
         Step::Ok
